@@ -2,7 +2,7 @@
 """Sensitivity self-test: applies a seeded breaking change to /repo, runs checks, reverts, records who detected it.
 
   mutants.py eval <seeded-dir> [--props C01,C10] [--runs N]     (seeded-dir contains patch.diff and meta.json)
-  mutants.py all [--runs N]                                      (every directory under /verif/seeded)
+  mutants.py all [--runs N] [--own] [--match SUBSTR] [--dir ABS]   (every directory under /verif/seeded; --own: only the check of the change's property)
 """
 import json, os, re, subprocess, sys, time
 
@@ -54,7 +54,7 @@ def main():
         dirs = [args[1]]
     else:
         base = opt("--dir", os.path.join(VERIF, "seeded"))
-        dirs = sorted(os.path.join(base, x) for x in os.listdir(base) if os.path.isdir(os.path.join(base, x)))
+        dirs = sorted(os.path.join(base, x) for x in os.listdir(base) if os.path.isdir(os.path.join(base, x)) and (opt("--match") or "") in x)
     props = opt("--props").split(",") if opt("--props") else None
     path = os.path.join(VERIF, "selftest", "mutation_matrix.json")
     matrix = json.load(open(path)) if os.path.exists(path) else {}
